@@ -14,6 +14,7 @@ INVARIANT ResumeEquivalence
 INVARIANT CopyCounts
 INVARIANT LabelsSound
 INVARIANT ClaimsMade
+INVARIANT OriginalOnTrack
 INVARIANT NothingClaimedUnrestored
 INVARIANT Emit
 PROPERTY Independence
